@@ -806,6 +806,40 @@ func c17HashEd(c *kc.Ctx) {
 	}
 }
 
+// hashReceivers: points with a history, to be used as receivers of Hash (prev: an earlier Hash result).
+type hashRecv struct {
+	name string
+	mk   func() kyber.Point
+}
+
+func hashReceivers(g *groups.G, prev kyber.Point, rng *kc.Rng) []hashRecv {
+	G := g.Group
+	s := G.Scalar().Pick(rng)
+	return []hashRecv{
+		{"Base().Clone()", func() kyber.Point { return G.Point().Base().Clone() }},
+		{"Point().Set(Base())", func() kyber.Point { return G.Point().Set(G.Point().Base()) }},
+		{"Point().Null()", func() kyber.Point { return G.Point().Null() }},
+		{"Point().Null().Clone()", func() kyber.Point { return G.Point().Null().Clone() }},
+		{"Point().Add(B, B)", func() kyber.Point { return G.Point().Add(G.Point().Base(), G.Point().Base()) }},
+		{"Point().Mul(s, nil).Clone()", func() kyber.Point { return G.Point().Mul(s, nil).Clone() }},
+		{"Point().Neg(B)", func() kyber.Point { return G.Point().Neg(G.Point().Base()) }},
+		{"an earlier Hash result", func() kyber.Point { return prev }},
+		{"a clone of an earlier Hash result", func() kyber.Point { return prev.Clone() }},
+		{"a decoded point", func() kyber.Point {
+			b, _ := G.Point().Base().MarshalBinary()
+			q := G.Point()
+			_ = q.UnmarshalBinary(b)
+			return q
+		}},
+		{"a clone of a decoded point", func() kyber.Point {
+			b, _ := G.Point().Base().MarshalBinary()
+			q := G.Point()
+			_ = q.UnmarshalBinary(b)
+			return q.Clone()
+		}},
+	}
+}
+
 // c17HashOthers: Hash of every other hashable group: determinism, membership, distinctness;
 // BN256 G1 try-and-increment against the model; the three BLS12-381 back-ends against each other.
 func c17HashOthers(c *kc.Ctx) {
@@ -825,7 +859,7 @@ func c17HashOthers(c *kc.Ctx) {
 			continue
 		}
 		seen := map[string]string{}
-		for _, m := range msgs {
+		for mi, m := range msgs {
 			var p kyber.Point
 			got := embTimeout(func() string {
 				h, ok := g.Group.Point().(hp)
@@ -852,6 +886,25 @@ func c17HashOthers(c *kc.Ctx) {
 			got2 := embTimeout(func() string { return "ok " + embValue(g, g.Group.Point().(hp).Hash(append([]byte{}, m...))) })
 			if got2 != got {
 				c.Violation(g.Name+":hash:not-deterministic", fmt.Sprintf("%s Hash gives different points for the same message", g.Name), rep)
+			}
+			// the result is a function of (message, tag), not of what the receiver held or how it was made
+			if mi < 3 || mi >= len(msgs)-4 {
+				for _, rv := range hashReceivers(g, p, rng) {
+					got3 := embTimeout(func() string {
+						h, ok := rv.mk().(hp)
+						if !ok {
+							return got
+						}
+						return "ok " + embValue(g, h.Hash(append([]byte{}, m...)))
+					})
+					c.Eval(1)
+					c.CountKind(g.Name + ":hash:receiver:" + rv.name)
+					if got3 != got {
+						rep["receiver"] = rv.name
+						c.Violation(g.Name+":hash:receiver-history", fmt.Sprintf("%s Hash(%s) on a receiver obtained as %s gives %s, on a fresh point %s",
+							g.Name, decTrunc(kc.HexB(m)), rv.name, decTrunc(got3), decTrunc(got)), rep)
+					}
+				}
 			}
 			if prev, dup := seen[got]; dup && prev != kc.HexB(m) {
 				c.Violation(g.Name+":hash:collision", fmt.Sprintf("%s Hash gives the same point for different messages", g.Name), rep)
